@@ -17,7 +17,7 @@ def units(tier):
 def runner_tasks(tier):
     return [{"module": "c19", "task": "order_total", "kind": "eval", "clause": "sort key vs Hill order, key injectivity; all symbol/isotope/charge classes"},
             {"module": "c19", "task": "hill", "kind": "bounded", "clause": "composition, order, canonicity, idempotence, parsed == hill"},
-            {"module": "stateful", "task": "C19", "name": "stateful C19", "kind": "bounded", "clause": "Hill form of mixed-table formulas and of isotope ions in one charge state"}]
+            {"module": "stateful", "task": "C19", "name": "stateful C19", "kind": "bounded", "clause": "Hill form of mixed-table formulas, of isotope ions in one charge state, of trace counts"}]
 
 
 REPLAY = {"module": "c19", "task": "replay"}
